@@ -10,10 +10,10 @@
 import math
 import re
 
-from engine.algebra import LocalDefs
+from engine.algebra import LocalDefs, data_slice
 from engine.extract import Request
 from engine.loops import describe
-from engine.tree import key
+from engine.tree import key, roots
 
 B = "src/buildblock/"
 CONV = [("ArrayFilter3DUsingConvolution", 3), ("ArrayFilter2DUsingConvolution", 2), ("ArrayFilter1DUsingConvolution", 1)]
@@ -23,7 +23,9 @@ def requests():
     r = [Request(B + c + ".cxx", fn=["stir::%s::do_it" % c], files=["/repo/src/buildblock/%s\\.cxx" % c]) for c, _n in CONV]
     r.append(Request("src/numerics_buildblock/fourier.cxx", fn=["stir::inverse_fourier$", "stir::inverse_fourier_1d$"], files=["/repo/src/include/stir/numerics/fourier.h"]))
     r.append(Request(B + "ArrayFilterUsingRealDFTWithPadding.cxx", fn=["stir::ArrayFilterUsingRealDFTWithPadding::do_it", "stir::transform_array_(to|from)_periodic_indices"], files=["/repo/src/buildblock/ArrayFilterUsingRealDFTWithPadding.cxx", "/repo/src/include/stir/ArrayFunction.inl"]))
-    r.append(Request("src/numerics_buildblock/fourier.cxx", fn=["stir::.*fourier.*", "stir::detail::.*", "stir::get_exparray"], files=["/repo/src/include/stir/numerics/fourier.h", "/repo/src/numerics_buildblock/fourier.cxx"]))
+    r.append(Request(B + "SeparableMetzArrayFilter.cxx", fn=["stir::.*"], files=["/repo/src/buildblock/SeparableMetzArrayFilter\\.cxx"]))
+    r.append(Request(B + "SeparableGaussianArrayFilter.cxx", fn=["stir::.*"], files=["/repo/src/buildblock/SeparableGaussianArrayFilter\\.cxx"]))
+    r.insert(5, Request("src/numerics_buildblock/fourier.cxx", fn=["stir::.*fourier.*", "stir::detail::.*", "stir::get_exparray"], files=["/repo/src/include/stir/numerics/fourier.h", "/repo/src/numerics_buildblock/fourier.cxx"]))
     return r
 
 
@@ -649,6 +651,71 @@ def rule_e_supported_lengths(ctx, fns):
     return n + 1
 
 
+def rule_f_kernel_sum_kept(ctx, fns):
+    """Kernel builders that take a maximum kernel size: the kernel is normalised (sum 1 / response 1 at frequency 0) and its length
+    is limited by the parameter.  If the limit is applied AFTER the normalisation, the elements that remain must be rescaled by a sum
+    taken over what remains - otherwise constant data change by the lost part (F63).  Structural reading: some element store of the
+    kernel depends (data flow) on a local that is accumulated/computed after the limit from the kernel, the limited length or a loop
+    bounded by them."""
+    RULE = "C19.f-kernel-sum-kept-after-length-limit"
+    n = 0
+    seen = set()
+    for f in sorted(fns, key=lambda g: bool(g.is_dependent)):
+        if f.body is None or (f.file, f.body.line) in seen:
+            continue
+        ints = [p for p in f.params if re.fullmatch(r"(const )?int", (p.get("t") or "").strip())]
+        arrs = [p for p in f.params if "VectorWithOffset<" in (p.get("t") or "") and "&" in (p.get("t") or "") and "const" not in (p.get("t") or "")]
+        if not ints or not arrs:
+            continue
+        defs = LocalDefs(f)
+        for P in ints:
+            pk = P["d"]
+
+            def mentions(node, ds):
+                return any(m.k == "DeclRefExpr" and m.get("d") in ds for m in node.walk())
+
+            # locals limited by the parameter
+            K = set()
+            limit_sites = []
+            for d, vd in defs.decl.items():
+                if not re.fullmatch(r"(const )?int", (vd.get("t") or "").strip()):
+                    continue
+                for e in defs.all_defs(d):
+                    if mentions(e, {pk}):
+                        K.add(d)
+                        limit_sites.append(e)
+            for A in arrs:
+                ak = "v%d" % A["d"]
+                grows = [c for c in f.calls() if (c.callee or "").split("::")[-1] in ("grow", "resize") and c.call_object() is not None and key(c.call_object().strip()) == ak and any(mentions(a, K | {pk}) for a in c.call_args())]
+                if not grows:
+                    continue
+                seen.add((f.file, f.body.line))
+                t0 = min([e.i for e in limit_sites] + [g.i for g in grows if any(mentions(a, {pk}) for a in g.call_args())])
+                # locals (re)computed after the limit from the kernel, the limited length, or inside a loop bounded by them
+                after = set()
+                for d, vd in defs.decl.items():
+                    for e in defs.all_defs(d):
+                        if e.i <= t0 or d in K:
+                            continue
+                        dep = mentions(e, K) or ak in roots(e)
+                        if not dep:
+                            for anc in e.ancestors():
+                                if anc.k in ("ForStmt", "WhileStmt", "CXXForRangeStmt") and anc.i > t0:
+                                    cond = anc.c[1] if anc.k == "ForStmt" and len(anc.c) >= 2 and anc.c[1] is not None else (anc.c[0] if anc.c else None)
+                                    if cond is not None and (mentions(cond, K) or ak in roots(cond)):
+                                        dep = True
+                                        break
+                        if dep and not re.fullmatch(r"(const )?(unsigned )?int", (vd.get("t") or "").strip()):
+                            after.add(d)
+                stores = [m for m in f.walk() if m.k in ("BinaryOperator", "CompoundAssignOperator", "CXXOperatorCallExpr") and (m.op or "") in ("=", "/=", "*=") and len(m.c) >= 2 and _chain(m.c[0])[1] and key(_chain(m.c[0])[0]) == ak]
+                scaled = [m for m in stores if any(x.k == "DeclRefExpr" and x.get("d") in after for x in data_slice(f, [m.c[1]], defs))]
+                ok = bool(scaled)
+                names = sorted(defs.decl[d].name or "?" for d in after)
+                ctx.ob(RULE, f.qn.split("<")[0], "kernel:%s limit:%s" % (A.get("n"), P.get("n")), ok, f.where(), ("element stores of `%s` at line(s) %s use %s, computed after the length was limited by `%s`" % (A.get("n"), sorted({m.line for m in scaled}), names, P.get("n"))) if ok else ("the length of `%s` is limited by `%s` (line %d) but no element stored in it depends on a sum taken after that limit: a kernel normalised before it was shortened no longer sums to one, so constant data are changed by the filter" % (A.get("n"), P.get("n"), min(e.line for e in limit_sites) if limit_sites else f.line)))
+                n += 1
+    return n
+
+
 def run(ctx):
     ctx.explanation = (
         "Decides two structural clauses: (a) in the direct-convolution filters (1D, 2D, 3D) the loop of every kernel index runs exactly over "
@@ -673,6 +740,8 @@ def run(ctx):
     rule_c_padded_route(ctx, us[4].functions)
     rule_d_sign_passed_on(ctx, us[5].functions)
     rule_e_supported_lengths(ctx, us[5].functions)
+    rule_f_kernel_sum_kept(ctx, us[6].functions + us[7].functions)
+    ctx.require_count("C19.f-kernel-sum-kept-after-length-limit", 2)
     ctx.require_count("C19.e-transforms-accept-supported-lengths", 4)
     ctx.require_count("C19.d-sign-passed-on", 14)
     ctx.require_count("C19.c-padded-route-through-modulo-map", 3)
